@@ -39,6 +39,7 @@ import (
 	"runtime"
 	"strings"
 	"sync"
+	"sync/atomic"
 	"testing"
 	"time"
 
@@ -249,11 +250,50 @@ func c33TrimStack(s string) string {
 type c33Dev struct {
 	oper  uint8
 	addrs []*bnet.Prefix
+	gate  *c33Gate
 }
 
 const c33IfIndex = 7
 
-func (d *c33Dev) GetIndex() uint64         { return c33IfIndex }
+// c33Gate holds the hello sender inside p2pHello() (its first call into the
+// device object after a hello tick) until the harness has issued the next
+// device event and that event has taken the interface mutex: the schedule
+// "link event while a hello is being built". The gate never parks (it spins),
+// so the quiescence based deadlock detector cannot mistake it for a deadlock,
+// and it lets go by itself after a bounded real time.
+type c33Gate struct {
+	armed   int32
+	reached int32
+	issued  int32
+	nifa    *netIfa
+}
+
+func (g *c33Gate) hit() {
+	if !atomic.CompareAndSwapInt32(&g.armed, 1, 0) {
+		return
+	}
+	atomic.StoreInt32(&g.reached, 1)
+	deadline := time.Now().Add(200 * time.Millisecond)
+	for atomic.LoadInt32(&g.issued) == 0 && time.Now().Before(deadline) {
+		runtime.Gosched()
+	}
+	// wait until the device update holds the interface mutex (it then waits for this goroutine to end)
+	deadline = time.Now().Add(50 * time.Millisecond)
+	for time.Now().Before(deadline) {
+		if !g.nifa.mu.TryLock() {
+			break
+		}
+		g.nifa.mu.Unlock()
+		runtime.Gosched()
+	}
+}
+
+func (d *c33Dev) GetIndex() uint64 {
+	if d.gate != nil {
+		d.gate.hit()
+	}
+	return c33IfIndex
+}
 func (d *c33Dev) GetOperState() uint8      { return d.oper }
 func (d *c33Dev) GetAddrs() []*bnet.Prefix { return d.addrs }
 
@@ -278,6 +318,7 @@ type c33Eth struct {
 	mu         sync.Mutex
 	sent       [][]byte
 	closed     bool
+	failJoin   bool
 	closeCalls int
 	closedCh   chan struct{}
 	recvCh     chan c33Pkt
@@ -307,8 +348,13 @@ func (e *c33Eth) SendPacket(dst ethernet.MACAddr, pkt []byte) error {
 	return nil
 }
 
-func (e *c33Eth) MCastJoin(ethernet.MACAddr) error { return nil }
-func (e *c33Eth) GetMTU() int                      { return 1500 }
+func (e *c33Eth) MCastJoin(ethernet.MACAddr) error {
+	if e.failJoin {
+		return fmt.Errorf("c33: multicast join failed (device not ready)")
+	}
+	return nil
+}
+func (e *c33Eth) GetMTU() int { return 1500 }
 
 func (e *c33Eth) Close() {
 	e.mu.Lock()
@@ -337,14 +383,28 @@ func (e *c33Eth) take() [][]byte {
 type c33Factory struct {
 	mu   sync.Mutex
 	eths []*c33Eth
+	// failNext: the multicast join of the next handle fails (fault injection); faulted: that happened
+	failNext bool
+	faulted  bool
 }
 
 func (f *c33Factory) New(name string, bpf *ethernet.BPF, llc ethernet.LLC) (ethernet.EthernetInterfaceI, error) {
 	f.mu.Lock()
 	defer f.mu.Unlock()
 	e := &c33Eth{id: len(f.eths), closedCh: make(chan struct{}), recvCh: make(chan c33Pkt, 64)}
+	if f.failNext {
+		f.failNext, f.faulted, e.failJoin = false, true, true
+	}
 	f.eths = append(f.eths, e)
 	return e, nil
+}
+
+func (f *c33Factory) takeFaulted() bool {
+	f.mu.Lock()
+	defer f.mu.Unlock()
+	v := f.faulted
+	f.faulted = false
+	return v
 }
 
 func (f *c33Factory) all() []*c33Eth {
@@ -377,7 +437,11 @@ type c33Case struct {
 	timers  bool
 	nbr     bool
 	started bool // real Server.Start() goroutines, mock clock advanced past the SNP timers after every event
-	seq     []int
+	// midHello: an event that arrives while the link is up is delivered while the hello sender is building a hello
+	midHello bool
+	// joinFault: the multicast join of the first ethernet handle fails (that link up does not bring the interface up)
+	joinFault bool
+	seq       []int
 }
 
 func (c c33Case) String() string {
@@ -392,6 +456,12 @@ func (c c33Case) String() string {
 	if c.started {
 		k += " started"
 	}
+	if c.midHello {
+		k += " midhello"
+	}
+	if c.joinFault {
+		k += " joinfault"
+	}
 	return fmt.Sprintf("%s timers=%v nbr=%v seq=[%s]", k, c.timers, c.nbr, sb.String())
 }
 
@@ -403,7 +473,10 @@ type c33Rig struct {
 	fac    *c33Factory
 	nifa   *netIfa
 	client device.Client
-	up     bool
+	up     bool     // the interface is expected to be operational (hellos, adjacencies)
+	linkUp bool     // operational state the device updater reported last
+	stuck  bool     // the case ended in a confirmed deadlock
+	gate   *c33Gate // gate of the device object the interface came up with
 }
 
 type c33Violation struct {
@@ -659,6 +732,9 @@ func (r *c33Rig) close(broken bool) {
 	if r.cs.started {
 		c33Op("lsdb stop", func() { r.srv.lsdbL2.stop() })
 	}
+	if r.stuck {
+		return
+	}
 	c33WaitGone("end of case " + r.cs.String())
 }
 
@@ -666,7 +742,12 @@ func (r *c33Rig) close(broken bool) {
 func c33RunCase(cs c33Case) *c33Violation {
 	r := c33NewRig(cs)
 	var v *c33Violation
-	defer func() { r.close(v != nil) }()
+	defer func() {
+		// after a deadlock the blocked goroutines can never go away: the enumeration stops at once (FailNow),
+		// waiting for them would only turn the violation into "inconclusive"
+		r.stuck = v != nil && (strings.HasPrefix(v.sig, "C33/deadlock") || v.sig == "C33/mutex-left-locked")
+		r.close(v != nil)
+	}()
 	if cs.timers {
 		if v = r.step("timers", "timer routines (no event yet)", r.timerBodies); v != nil {
 			return v
@@ -675,13 +756,51 @@ func c33RunCase(cs c33Case) *c33Violation {
 	if cs.started {
 		r.advance()
 	}
+	if cs.joinFault {
+		r.fac.failNext = true
+	}
 	for i, e := range cs.seq {
 		dev := &c33Dev{oper: c33EvOper[e], addrs: c33IfAddrs}
+		if e == c33EvUp {
+			dev.gate = &c33Gate{nifa: r.nifa}
+		}
 		what := fmt.Sprintf("DeviceUpdate(%s) [event %d]", c33EvName[e], i)
-		r.up = e == c33EvUp
+		if cs.midHello && r.up && !cs.passive && r.gate != nil {
+			// fire a hello tick and hold the sender inside p2pHello() until the event below has been issued
+			g := r.gate
+			atomic.StoreInt32(&g.issued, 0)
+			atomic.StoreInt32(&g.reached, 0)
+			atomic.StoreInt32(&g.armed, 1)
+			r.clk.Add(4 * time.Second)
+			for dl := time.Now().Add(2 * time.Second); atomic.LoadInt32(&g.reached) == 0 && time.Now().Before(dl); {
+				time.Sleep(50 * time.Microsecond)
+			}
+			atomic.StoreInt32(&g.armed, 0)
+			what += " while a hello is being built"
+			atomic.StoreInt32(&g.issued, 1)
+		}
+		r.fac.mu.Lock()
+		willFault := r.fac.failNext && !cs.passive
+		r.fac.mu.Unlock()
+		// The interface is (re)started on an operational state transition to up. A start whose multicast join
+		// fails leaves it down until the link has gone down and come back ("after a link comes back up").
+		switch {
+		case e != c33EvUp:
+			r.up = false
+		case !r.linkUp:
+			r.up = !willFault
+		}
+		r.linkUp = e == c33EvUp
 		if v = r.step("DeviceUpdate", what, func() { r.client.DeviceUpdate(dev) }); v != nil {
 			v.text = fmt.Sprintf("after event %d (%s): %s", i, c33EvName[e], v.text)
 			return v
+		}
+		r.fac.takeFaulted()
+		if r.up && dev.gate != nil {
+			r.gate = dev.gate // the hello sender reads the device object of the latest update
+		}
+		if !r.up {
+			r.gate = nil
 		}
 		if cs.started {
 			r.advance()
@@ -779,7 +898,10 @@ func c33Transitions(seq []int) int {
 	return n
 }
 
-type c33Mode struct{ passive, timers, nbr, started bool }
+type c33Mode struct {
+	passive, timers, nbr, started, midHello, joinFault bool
+	maxLen                                             int // 0: the enumeration's default
+}
 
 func c33Enumerate(t *testing.T, maxLen int, modes []c33Mode) {
 	biolog.SetLogger(c33Discard{})
@@ -793,11 +915,14 @@ func c33Enumerate(t *testing.T, maxLen int, modes []c33Mode) {
 	k := 0
 	for _, m := range modes {
 		for _, seq := range seqs {
+			if m.maxLen > 0 && len(seq) > m.maxLen {
+				continue
+			}
 			k++
 			if k%shards != shard {
 				continue
 			}
-			cs := c33Case{passive: m.passive, timers: m.timers, nbr: m.nbr, started: m.started, seq: seq}
+			cs := c33Case{passive: m.passive, timers: m.timers, nbr: m.nbr, started: m.started, midHello: m.midHello, joinFault: m.joinFault, seq: seq}
 			if filter != "" && !strings.Contains(cs.String(), filter) {
 				continue
 			}
@@ -811,6 +936,8 @@ func c33Enumerate(t *testing.T, maxLen int, modes []c33Mode) {
 			c.ClassIf(m.timers, "timers")
 			c.ClassIf(m.nbr, "nbr")
 			c.ClassIf(m.started, "started")
+			c.ClassIf(m.midHello, "event_while_hello_is_built")
+			c.ClassIf(m.joinFault, "multicast_join_fault")
 			c.ClassIf(len(seq) > 0 && seq[len(seq)-1] == c33EvUp, "ends_up")
 			c.Class(fmt.Sprintf("up_transitions_%d", tr))
 			v := c33RunCase(cs)
@@ -840,6 +967,9 @@ func TestVerifC33Exhaustive(t *testing.T) {
 	c33Enumerate(t, kit.Scale(6, 7), []c33Mode{
 		{passive: false}, {passive: false, timers: true}, {passive: false, nbr: true}, {passive: false, timers: true, nbr: true},
 		{passive: true}, {passive: true, timers: true},
+		// schedule: events delivered while the hello sender is inside p2pHello(); fault: first multicast join fails
+		{midHello: true, maxLen: kit.Scale(4, 5)}, {midHello: true, nbr: true, maxLen: kit.Scale(4, 5)},
+		{joinFault: true, maxLen: kit.Scale(5, 6)}, {joinFault: true, timers: true, nbr: true, maxLen: kit.Scale(5, 6)},
 	})
 }
 
